@@ -18,15 +18,16 @@ def scRegs : List Act → List Nat
   | .unreg _ :: sc => scRegs sc
   | .reg x :: sc => x :: scRegs sc
 
-/-- Heap `h'` is `h` with attribute `a` of `o` having lost `olds` and gained the
-fresh objects `news`. -/
+/-- Heap `h'` is `h` with attribute `a` of `o` having lost `olds` and gained `news`;
+every gained object is fresh or one of the lost ones (carried over by a reordering or
+a reassignment that keeps objects: the graph stays a tree). -/
 structure Change (h h' : Heap) (o : Nat) (a : Attr) (olds news : List Nat) : Prop where
   o_lt : o < h.next
   next_le : h.next ≤ h'.next
   other : ∀ p a', (p ≠ o ∨ a' ≠ a) → targets h' a' p = targets h a' p
   mem : ∀ c, c ∈ targets h' a o ↔ (c ∈ targets h a o ∧ c ∉ olds) ∨ c ∈ news
   olds_sub : ∀ c ∈ olds, c ∈ targets h a o
-  news_fresh : ∀ c ∈ news, h.next ≤ c ∧ c < h'.next
+  news_ok : ∀ c ∈ news, (h.next ≤ c ∧ c < h'.next) ∨ c ∈ olds
   nodup' : (targets h' a o).Nodup
   olds_nodup : olds.Nodup
   news_nodup : news.Nodup
@@ -63,13 +64,21 @@ theorem Change.tree (hc : Change h h' o a olds news) (ht : TreeShaped h) : TreeS
   · intro p a' c hm
     rcases old_or_new hm with h1 | ⟨rfl, rfl, h3⟩
     · exact ht.up _ _ _ h1
-    · have := hc.news_fresh c h3; have := hc.o_lt; omega
+    · rcases hc.news_ok c h3 with hf | hcar
+      · have := hc.o_lt; omega
+      · exact ht.up _ _ _ (hc.olds_sub c hcar)
   · intro c o₁ a₁ o₂ a₂ h1 h2
-    rcases old_or_new h1 with h1 | ⟨rfl, rfl, h1⟩ <;> rcases old_or_new h2 with h2 | ⟨e1, e2, h2⟩
+    rcases old_or_new h1 with h1 | ⟨e1, e1', h1⟩ <;> rcases old_or_new h2 with h2 | ⟨e2, e2', h2⟩
     · exact ht.uniq _ _ _ _ _ h1 h2
-    · have := ht.bound _ _ _ h1; have := hc.news_fresh c h2; omega
-    · have := ht.bound _ _ _ h2; have := hc.news_fresh c h1; omega
-    · exact ⟨e1.symm, e2.symm⟩
+    · rcases hc.news_ok c h2 with hf | hcar
+      · have := ht.bound _ _ _ h1; omega
+      · obtain ⟨r1, r2⟩ := ht.uniq _ _ _ _ _ h1 (hc.olds_sub c hcar)
+        exact ⟨r1.trans e2.symm, r2.trans e2'.symm⟩
+    · rcases hc.news_ok c h1 with hf | hcar
+      · have := ht.bound _ _ _ h2; omega
+      · obtain ⟨r1, r2⟩ := ht.uniq _ _ _ _ _ h2 (hc.olds_sub c hcar)
+        exact ⟨e1.trans r1.symm, e1'.trans r2.symm⟩
+    · exact ⟨e1.trans e2.symm, e1'.trans e2'.symm⟩
   · intro p a'
     by_cases hpa : p = o ∧ a' = a
     · obtain ⟨rfl, rfl⟩ := hpa; exact hc.nodup'
@@ -81,20 +90,21 @@ theorem Change.tree (hc : Change h h' o a olds news) (ht : TreeShaped h) : TreeS
   · intro p a' c hm
     rcases old_or_new hm with h1 | ⟨_, _, h3⟩
     · have := ht.bound _ _ _ h1; have := hc.next_le; omega
-    · exact (hc.news_fresh c h3).2
+    · rcases hc.news_ok c h3 with hf | hcar
+      · exact hf.2
+      · have := ht.bound _ _ _ (hc.olds_sub c hcar); have := hc.next_le; omega
   · intro p a' hp
     have hpo : p ≠ o := by have := hc.o_lt; have := hc.next_le; omega
     rw [hc.other _ _ (Or.inl hpo)]
     exact ht.empty _ _ (by have := hc.next_le; omega)
   · have := ht.pos; have := hc.next_le; omega
 
-/-- New objects are leaves. -/
-theorem Change.news_leaf (hc : Change h h' o a olds news) (ht : TreeShaped h) {c} (hcn : c ∈ news)
+/-- Fresh objects are leaves. -/
+theorem Change.fresh_leaf (hc : Change h h' o a olds news) (ht : TreeShaped h) {c} (hf : h.next ≤ c)
     (a' : Attr) : targets h' a' c = [] := by
-  have hf := hc.news_fresh c hcn
   have hco : c ≠ o := by have := hc.o_lt; omega
   rw [hc.other _ _ (Or.inl hco)]
-  exact ht.empty _ _ hf.1
+  exact ht.empty _ _ hf
 
 /-- Below a removed object nothing changes. -/
 theorem Change.descFrom_old (hc : Change h h' o a olds news) (ht : TreeShaped h) {L : List Link}
@@ -129,74 +139,107 @@ theorem Change.reach_off_path (hc : Change h h' o a olds news) (ht : TreeShaped 
       rintro ⟨rfl, e2, _⟩
       exact hoff m l hp hl e2
 
-/-- A change of the attribute the name follows at the depth `k` of a reachable
-object: the removed subtrees leave, the new leaves enter at depth `k + 1`. -/
+/-- Descents only read the heap inside the subtree they walk. -/
+theorem descFrom_congr_local {L : List Link} {k c : Nat}
+    (hsame : ∀ j p, p ∈ descFrom h L k c j → ∀ a' x, x ∈ targets h' a' p ↔ x ∈ targets h a' p) :
+    ∀ j x, x ∈ descFrom h' L k c j ↔ x ∈ descFrom h L k c j := by
+  intro j
+  induction j with
+  | zero => intro x; simp [mem_descFrom_zero]
+  | succ j ih =>
+    intro x
+    rw [mem_descFrom_succ, mem_descFrom_succ]
+    constructor
+    · rintro ⟨l, p, hl, hp, hx⟩
+      have hp' := (ih p).mp hp
+      exact ⟨l, p, hl, hp', (hsame j p hp' _ _).mp hx⟩
+    · rintro ⟨l, p, hl, hp, hx⟩
+      exact ⟨l, p, hl, (ih p).mpr hp, (hsame j p hp _ _).mpr hx⟩
+
+/-- Below an object reachable one level under the changed one nothing changes. -/
+theorem Change.descFrom_level (hc : Change h h' o a olds news) (ht : TreeShaped h) {L : List Link}
+    {k c : Nat} (hok : o ∈ reach h L k) (hck : c ∈ reach h L (k + 1)) :
+    ∀ j x, x ∈ descFrom h' L (k + 1) c j ↔ x ∈ descFrom h L (k + 1) c j := by
+  apply descFrom_congr_local
+  intro j p hp a' x
+  have hpo : p ≠ o := by
+    rintro rfl
+    have := reach_unique_depth ht (descFrom_sub_reach hck hp) hok
+    omega
+  rw [hc.other _ _ (Or.inl hpo)]
+
+theorem reach_below {L : List Link} {k j x : Nat} :
+    x ∈ reach h L (k + j) ↔ ∃ c, c ∈ reach h L k ∧ x ∈ descFrom h L k c j :=
+  ⟨reach_split, fun ⟨_, hc, hx⟩ => descFrom_sub_reach hc hx⟩
+
+/-- A change of the attribute the name follows at the depth `k` of a reachable object:
+the subtrees of the removed objects leave, the subtrees of the added ones enter. -/
 theorem Change.reach_on_path (hc : Change h h' o a olds news) (ht : TreeShaped h) {L : List Link}
     {k : Nat} {l : Link} (hok : o ∈ reach h L k) (hl : L[k]? = some l) (hla : l.attr = a) :
     ∀ m x, x ∈ reach h' L m ↔
       (x ∈ reach h L m ∧ ¬(k + 1 ≤ m ∧ ∃ c ∈ olds, x ∈ descFrom h L (k + 1) c (m - (k + 1)))) ∨
-      (m = k + 1 ∧ x ∈ news) := by
-  intro m
-  induction m with
-  | zero =>
-    intro x
-    simp only [mem_reach_zero]
+      (k + 1 ≤ m ∧ ∃ c ∈ news, x ∈ descFrom h' L (k + 1) c (m - (k + 1))) := by
+  -- levels up to k are untouched
+  have hlow : ∀ m, m ≤ k → ∀ x, x ∈ reach h' L m ↔ x ∈ reach h L m := by
+    intro m
+    induction m with
+    | zero => intro _ x; simp [mem_reach_zero]
+    | succ m ih =>
+      intro hm x
+      rw [mem_reach_succ, mem_reach_succ]
+      have hne : ∀ p, p ∈ reach h L m → p ≠ o := by
+        rintro p hp rfl
+        have := reach_unique_depth ht hp hok; omega
+      constructor
+      · rintro ⟨lm, p, hlm, hp, hx⟩
+        have hp' := (ih (by omega) p).mp hp
+        rw [hc.other _ _ (Or.inl (hne p hp'))] at hx
+        exact ⟨lm, p, hlm, hp', hx⟩
+      · rintro ⟨lm, p, hlm, hp, hx⟩
+        refine ⟨lm, p, hlm, (ih (by omega) p).mpr hp, ?_⟩
+        rw [hc.other _ _ (Or.inl (hne p hp))]; exact hx
+  -- level k + 1
+  have hmid : ∀ c, c ∈ reach h' L (k + 1) ↔ (c ∈ reach h L (k + 1) ∧ c ∉ olds) ∨ c ∈ news := by
+    intro c
+    rw [mem_reach_succ, mem_reach_succ]
+    constructor
+    · rintro ⟨lm, p, hlm, hp, hx⟩
+      rw [hl] at hlm; cases hlm
+      have hp' := (hlow k (Nat.le_refl _) p).mp hp
+      rcases (hc.mem_targets ht).mp hx with ⟨h1, h2⟩ | ⟨_, _, h3⟩
+      · refine Or.inl ⟨⟨_, p, hl, hp', h1⟩, ?_⟩
+        intro hco
+        obtain ⟨rfl, e2⟩ := ht.uniq _ _ _ _ _ h1 (hc.olds_sub c hco)
+        exact h2 ⟨rfl, e2, hco⟩
+      · exact Or.inr h3
+    · rintro (⟨⟨lm, p, hlm, hp, hx⟩, hno⟩ | hn)
+      · rw [hl] at hlm; cases hlm
+        refine ⟨_, p, hl, (hlow k (Nat.le_refl _) p).mpr hp, ?_⟩
+        exact (hc.mem_targets ht).mpr (Or.inl ⟨hx, fun ⟨_, _, h3⟩ => hno h3⟩)
+      · refine ⟨l, o, hl, (hlow k (Nat.le_refl _) o).mpr hok, ?_⟩
+        rw [hla]; exact (hc.mem _).mpr (Or.inr hn)
+  intro m x
+  by_cases hm : m ≤ k
+  · rw [hlow m hm x]
     constructor
     · intro hx; exact Or.inl ⟨hx, by omega⟩
-    · rintro (⟨hx, _⟩ | ⟨hm, _⟩)
+    · rintro (⟨hx, _⟩ | ⟨h1, _⟩)
       · exact hx
       · omega
-  | succ m ih =>
-    intro x
+  · obtain ⟨j, rfl⟩ : ∃ j, m = (k + 1) + j := ⟨m - (k + 1), by omega⟩
+    rw [show k + 1 + j - (k + 1) = j by omega, reach_below, reach_below]
     constructor
-    · intro hx
-      obtain ⟨lm, p, hlm, hp, hxp⟩ := mem_reach_succ.mp hx
-      rcases (ih p).mp hp with ⟨hp1, hp2⟩ | ⟨hpm, hpn⟩
-      · rcases (hc.mem_targets ht).mp hxp with ⟨hx1, hx2⟩ | ⟨rfl, e2, hxn⟩
-        · -- an old edge p → x
-          refine Or.inl ⟨mem_reach_succ.mpr ⟨lm, p, hlm, hp1, hx1⟩, ?_⟩
-          rintro ⟨hkm, c, hco, hxc⟩
-          rcases Nat.eq_or_lt_of_le hkm with hkm' | hkm'
-          · -- m = k : x would be one of the olds, whose parent is o
-            have hmk : m = k := by omega
-            subst hmk
-            rw [show m + 1 - (m + 1) = 0 by omega] at hxc
-            simp [mem_descFrom_zero] at hxc; subst hxc
-            obtain ⟨rfl, e2⟩ := ht.uniq _ _ _ _ _ hx1 (hc.olds_sub _ hco)
-            exact hx2 ⟨rfl, e2, hco⟩
-          · -- deeper: p would be under the same old object
-            obtain ⟨d, hd⟩ : ∃ d, m + 1 - (k + 1) = d + 1 := ⟨m - (k + 1), by omega⟩
-            rw [hd] at hxc
-            obtain ⟨l', p', _, hp', hxp'⟩ := mem_descFrom_succ.mp hxc
-            obtain ⟨rfl, _⟩ := ht.uniq _ _ _ _ _ hx1 hxp'
-            exact hp2 ⟨by omega, c, hco, by rwa [show m - (k + 1) = d by omega]⟩
-        · -- a new edge o → x
-          have : m = k := reach_unique_depth ht hp1 hok
-          exact Or.inr ⟨by omega, hxn⟩
-      · -- p is one of the new leaves: it has no children
-        rw [hc.news_leaf ht hpn] at hxp; simp at hxp
-    · rintro (⟨hx1, hx2⟩ | ⟨hm, hxn⟩)
-      · obtain ⟨lm, p, hlm, hp, hxp⟩ := mem_reach_succ.mp hx1
-        have hp' : p ∈ reach h' L m := by
-          refine (ih p).mpr (Or.inl ⟨hp, ?_⟩)
-          rintro ⟨hkm, c, hco, hpc⟩
-          apply hx2
-          refine ⟨by omega, c, hco, ?_⟩
-          rw [show m + 1 - (k + 1) = (m - (k + 1)) + 1 by omega]
-          refine mem_descFrom_succ.mpr ⟨lm, p, ?_, hpc, hxp⟩
-          rw [← hlm]; congr 1; omega
-        refine mem_reach_succ.mpr ⟨lm, p, hlm, hp', ?_⟩
-        refine (hc.mem_targets ht).mpr (Or.inl ⟨hxp, ?_⟩)
-        rintro ⟨rfl, e2, hxo⟩
-        have hmk : m = k := reach_unique_depth ht hp hok
-        apply hx2
-        refine ⟨by omega, x, hxo, ?_⟩
-        rw [show m + 1 - (k + 1) = 0 by omega]; simp [mem_descFrom_zero]
-      · have hmk : m = k := by omega
-        subst hmk
-        have ho' : o ∈ reach h' L m := (ih o).mpr (Or.inl ⟨hok, by omega⟩)
-        refine mem_reach_succ.mpr ⟨l, o, hl, ho', ?_⟩
-        rw [hla]
-        exact (hc.mem _).mpr (Or.inr hxn)
+    · rintro ⟨c, hcr, hx⟩
+      rcases (hmid c).mp hcr with ⟨h1, h2⟩ | h3
+      · have hx' := (hc.descFrom_level ht hok h1 j x).mp hx
+        refine Or.inl ⟨⟨c, h1, hx'⟩, ?_⟩
+        rintro ⟨_, c', hc', hx''⟩
+        have : c' = c := descFrom_same_depth ht hx'' hx'
+        exact h2 (this ▸ hc')
+      · exact Or.inr ⟨by omega, c, h3, hx⟩
+    · rintro (⟨⟨c, h1, hx⟩, hno⟩ | ⟨_, c, h3, hx⟩)
+      · have hco : c ∉ olds := fun hco => hno ⟨by omega, c, hco, hx⟩
+        exact ⟨c, (hmid c).mpr (Or.inl ⟨h1, hco⟩), (hc.descFrom_level ht hok h1 j x).mpr hx⟩
+      · exact ⟨c, (hmid c).mpr (Or.inr h3), hx⟩
 
 end TraitsVerif.Model.Legacy
